@@ -206,6 +206,11 @@ func (p *sparser) expect(v string) {
 }
 
 func (p *sparser) expr() SExpr {
+	return p.implies()
+}
+
+// quantOrLet parses forall/exists/let starting at the keyword (already peeked); the body extends as far right as possible.
+func (p *sparser) quantOrLet() SExpr {
 	if p.isID("forall") || p.isID("exists") {
 		kind := p.next().v
 		v := p.next()
@@ -223,19 +228,16 @@ func (p *sparser) expr() SExpr {
 		q.Body = p.expr()
 		return q
 	}
-	if p.isID("let") {
-		p.next()
-		v := p.next()
-		p.expect("=")
-		val := p.cond()
-		if !p.isID("in") {
-			panic("expected 'in' after let binding")
-		}
-		p.next()
-		body := p.expr()
-		return &SLet{Name: v.v, Val: val, Body: body}
+	p.next() // let
+	v := p.next()
+	p.expect("=")
+	val := p.cond()
+	if !p.isID("in") {
+		panic("expected 'in' after let binding")
 	}
-	return p.implies()
+	p.next()
+	body := p.expr()
+	return &SLet{Name: v.v, Val: val, Body: body}
 }
 
 func (p *sparser) implies() SExpr {
@@ -389,6 +391,9 @@ func (p *sparser) postfix() SExpr {
 }
 
 func (p *sparser) primary() SExpr {
+	if p.isID("forall") || p.isID("exists") || p.isID("let") {
+		return p.quantOrLet()
+	}
 	t := p.next()
 	switch t.k {
 	case "int":
